@@ -59,7 +59,9 @@ func (c verifConnector) Driver() driver.Driver                        { return v
 
 type verifDriver struct{}
 
-func (verifDriver) Open(string) (driver.Conn, error) { return nil, errors.New("verif: use the connector") }
+func (verifDriver) Open(string) (driver.Conn, error) {
+	return nil, errors.New("verif: use the connector")
+}
 
 type verifConn struct{ r *verifRec }
 
@@ -123,11 +125,11 @@ type verifCase struct {
 	Final    verifFinal  `json:"final"`
 	API      string      `json:"api"` // transact | transactctx
 	// orm
-	Mode   string      `json:"mode"` // row | rows
-	Strict bool        `json:"strict"`
-	Shape  verifShape  `json:"shape"`
-	Cols   []string    `json:"cols"`
-	Rows   [][]any     `json:"rows"`
+	Mode   string     `json:"mode"` // row | rows
+	Strict bool       `json:"strict"`
+	Shape  verifShape `json:"shape"`
+	Cols   []string   `json:"cols"`
+	Rows   [][]any    `json:"rows"`
 }
 
 // verifErr describes an error without interpreting it: identity with one of the sentinels,
